@@ -132,7 +132,9 @@ Definition find_spec (c : fcase) : bool :=
 Record gcase := mkgcase {
   g_msgs : list incoming;                              (* what arrives, in order (ends with a final C-GET-RSP) *)
   g_obs_rsps : list rsp;                               (* C-STORE responses sent *)
-  g_obs_yields : list bytes }.                         (* instance UIDs handed to the caller, in order *)
+  g_obs_yields : list bytes;                           (* instance UIDs handed to the caller, in order *)
+  g_ended : bool;                                      (* the iteration ended by itself (no error, no time-out) *)
+  g_unconsumed : N }.                                  (* messages still queued afterwards *)
 
 Definition inst_of (q : rq) : bytes := match q_inst q with Some i => i | None => [] end.
 
@@ -141,6 +143,14 @@ Fixpoint beq_list_bytes (a b : list bytes) : bool :=
   | [], [] => true
   | x :: a', y :: b' => beq_bytes x y && beq_list_bytes a' b'
   | _, _ => false
+  end.
+
+(* messages up to and including the final C-GET response *)
+Fixpoint get_consumed (msgs : list incoming) : N :=
+  match msgs with
+  | [] => 0
+  | GetRsp s :: r => if get_pending s then 1 + get_consumed r else 1
+  | StoreRq _ _ :: r => 1 + get_consumed r
   end.
 
 Definition get_corr (c : gcase) : bool :=
@@ -167,7 +177,10 @@ Definition get_spec (c : gcase) : bool :=
         end) sr (g_obs_rsps c)
   && beq_list_bytes (map (fun p => inst_of (fst p))
                          (filter (fun p => match snd p with HStatus _ => true | HError => false end) sr))
-                    (g_obs_yields c).
+                    (g_obs_yields c)
+  (* the final C-GET response - whatever its class: success, warning, failure, cancel - ends the operation:
+     the iteration ends by itself and nothing queued behind that response is read *)
+  && g_ended c && (g_unconsumed c + get_consumed (g_msgs c) =? lenN (g_msgs c)).
 
 (* ---- C19: C-MOVE provider -------------------------------------------------------------------------- *)
 Record mvcase := mkmvcase {
